@@ -507,3 +507,82 @@ func loopBoundOf(p *an.Prog, in ssa.Instruction, ifi *ssa.If, b *ssa.BinOp) (hi,
 	}
 	return nil, nil, 0, false
 }
+
+// errPolarity: in the named functions (which return an error) an error that was observed non-nil is not dropped: from
+// the non-nil edge of every nil-test of an error value no normal return yields a nil error. (Inverting such a test, or
+// deleting the early return, turns "fails cleanly" into "carries on as if nothing happened".)
+func (c *Ctx) errPolarity(names ...string) {
+	P := c.P
+	for _, name := range names {
+		q := c.F(name)
+		if !q.ok() {
+			continue
+		}
+		sig := q.fn.Signature
+		ek := -1
+		for i := 0; i < sig.Results().Len(); i++ {
+			if isErrorType(sig.Results().At(i).Type()) {
+				ek = i
+			}
+		}
+		if ek < 0 {
+			q.undecided("ERR", "an observed error is not dropped", name+" no longer returns an error")
+			continue
+		}
+		n := 0
+		ifs, negs := P.IfsOn(q.fn, func(cond ssa.Value) bool {
+			b, ok := cond.(*ssa.BinOp)
+			if !ok || (b.Op != token.EQL && b.Op != token.NEQ) {
+				return false
+			}
+			return either(b, func(v ssa.Value) bool { return !isNilConst(v) && isErrorType(v.Type()) }, isNilConst)
+		})
+		for i, ifi := range ifs {
+			if an.Host(ifi.Parent()) != q.fn {
+				continue
+			}
+			b := stripNotV(ifi.Cond).(*ssa.BinOp)
+			nonNil := 0 // successor taken when the error is non-nil
+			if negs[i] {
+				nonNil = 1
+			}
+			if b.Op == token.EQL {
+				nonNil = 1 - nonNil
+			}
+			what := b.X
+			if isNilConst(what) {
+				what = b.Y
+			}
+			desc := "value"
+			for _, s := range P.Sources(what) {
+				switch x := s.(type) {
+				case *ssa.Call:
+					desc = P.CalleeName(&x.Call)
+				case *ssa.Extract:
+					if call, isC := x.Tuple.(*ssa.Call); isC {
+						desc = P.CalleeName(&call.Call)
+					}
+				case *ssa.UnOp:
+					if f := an.FieldOfAddr(x.X); f != "" {
+						desc = f
+					}
+				}
+			}
+			bad := false
+			for _, r := range returnsOf(q.fn) {
+				if !anyNil(c.retVals(r, ek)) {
+					continue
+				}
+				if P.PathExists(q.fn, ifi, an.Is(r), nil, cutEdge(ifi, 1-nonNil)) {
+					bad = true
+				}
+			}
+			n++
+			q.add("ERR", "an observed error is not dropped: "+desc+" #"+fmt.Sprint(n), !bad,
+				pickS(!bad, "no nil-error return is reachable from the non-nil edge of the test", "after "+desc+" was observed non-nil the function can still return a nil error (the test is inverted or its early return is gone)"), ifi)
+		}
+		if n == 0 {
+			q.undecided("ERR", "an observed error is not dropped", "no nil-test of an error value found in "+name)
+		}
+	}
+}
